@@ -69,7 +69,10 @@ T5 == Mk3("a", I("1"), "c", Mk2("$merge", S("t"), "k", I("0")), "t", Single("x",
 X1 == Mk3("t", Single("y", I("2")), "whole", Single("$replace", Single("$match", Single("a", I("1")))),
           "part", Single("$merge", Mk2("$match", Single("a", I("1")), "$path", S("t"))))
 X2 == Mk3("t", Single("y", I("2")), "short", Single("$replace", L(<<Single("a", I("1")), S("c")>>)), "own", I("3"))
-BasesC19 == { <<T1>>, <<T2>>, <<T3>>, <<T1, T2>>, <<T4, T3>>, <<T5, X1>>, <<X2, T5>> }
+(* empty local containers that a merge fills: the filled form must stay on the evaluation copy *)
+T6 == Mk2("tmpl", Mk2("opts", Single("r", I("3")), "lst", L(<<I("1")>>)),
+          "svc", Mk3("$merge", S("tmpl"), "opts", EmptyMap, "lst", EmptyList))
+BasesC19 == { <<T1>>, <<T2>>, <<T3>>, <<T1, T2>>, <<T4, T3>>, <<T5, X1>>, <<X2, T5>>, <<T6>> }
 PatchesC19 == {
   Single("z", I("9")), Single("a", I("2")), Single("$repeat", I("3")),
   Single("t", Single("y", I("2"))), Single("k", Single("v", I("2"))),
